@@ -19,6 +19,12 @@ func (core *JApiCore) processInclude(keyword *scanner.Lexeme) *jerr.JApiError {
 	// This directive shouldn't be among core.directives, because we simply
 	// "paste" included file content inside current file.
 
+	// INCLUDE never becomes a directive of the tree, so a ban on it is enforced here,
+	// before the file it names is looked at.
+	if _, ok := core.bannedDirectives[directive.Include]; ok {
+		return japiErrorForLexeme(keyword, fmt.Sprintf("%s (%s)", jerr.DirectiveNotAllowed, directive.Include.String()))
+	}
+
 	path, je := core.getIncludedFilePath(keyword)
 	if je != nil {
 		return je
